@@ -1,9 +1,233 @@
 package main
 
 import (
+	"bytes"
+	"context"
+	"fmt"
+	"sort"
+	"strings"
+	"time"
+
+	"github.com/plgd-dev/go-coap/v3/message"
+	"github.com/plgd-dev/go-coap/v3/message/codes"
+	"github.com/plgd-dev/go-coap/v3/message/pool"
+	"github.com/plgd-dev/go-coap/v3/net/blockwise"
+	"github.com/plgd-dev/go-coap/v3/net/responsewriter"
+	tcpclient "github.com/plgd-dev/go-coap/v3/tcp/client"
+
 	"verif/ev"
 	"verif/mcx"
+	"verif/vrt"
+	"verif/worlds/tcpw"
 )
 
-// addMore adds tcp-conn and server histories (filled in with those worlds).
-func addMore(r *ev.Run, scs *[]*mcx.Scenario) {}
+// tcp-conn histories: the same idea on a real tcp/client.Conn (block-wise enabled by the peer's CSM).
+
+var tcpKinds = []string{"do-ok", "do-silent-cancel", "upload3", "upload-abort-cancel", "download3", "download-abort-cancel", "dup-token",
+	"observe-cancel", "observe-live", "observe-silent-cancel", "observe-404", "ping-ok", "ping-silent-cancel", "oneway", "incoming", "incoming-blockwise-abort"}
+
+func tcpScenario(depth int, kinds []string) *mcx.Scenario {
+	name := fmt.Sprintf("tcp-conn exchange histories depth=%d over %d exchange kinds", depth, len(kinds))
+	return &mcx.Scenario{
+		Name:   name,
+		Bounds: mcx.Bounds{Preempt: 0, Env: -1, Select: 0},
+		Opt:    vrt.Options{MaxSteps: 400000},
+		Body: func(s *vrt.Sched) func() (string, []mcx.Finding) {
+			var hist []string
+			var fs []mcx.Finding
+			liveObs := 0
+			vrt.App("env", func() {
+				w := tcpw.New(tcpw.Opts{LimitTotal: 2, LimitEndpoint: 2, QueueSize: 4, BlockWise: true, SZX: blockwise.SZX16, DisableCSM: true,
+					Handler: func(rw *responsewriter.ResponseWriter[*tcpclient.Conn], r *pool.Message) {
+						if r.Code() == codes.GET || r.Code() == codes.POST {
+							_ = rw.SetResponse(codes.Content, message.TextPlain, bytes.NewReader([]byte("served")))
+						}
+					}})
+				cc := w.CC
+				w.Inject(message.Message{Code: codes.CSM, Options: message.Options{{ID: message.TCPBlockWiseTransfer}}})
+				vrt.Quiesce("env: CSM consumed")
+				tokN := byte(0)
+				for step := 0; step < depth; step++ {
+					kind := kinds[vrt.Choose(len(kinds), nil)]
+					hist = append(hist, kind)
+					ctx, cancel := context.WithCancel(context.Background())
+					tokN++
+					tok := message.Token{0xC2, tokN}
+					opDone := false
+					var opErr error
+					start := func(name string, f func() error) { vrt.App(name, func() { opErr = f(); opDone = true }) }
+					mk := func(code codes.Code, path string, body []byte) *pool.Message {
+						req := cc.AcquireMessage(ctx)
+						req.SetCode(code)
+						req.SetToken(tok)
+						_ = req.SetPath(path)
+						if body != nil {
+							req.SetContentFormat(message.TextPlain)
+							req.SetBody(bytes.NewReader(body))
+						}
+						return req
+					}
+					var obsCancel func() error
+					switch kind {
+					case "do-ok", "do-silent-cancel", "download3", "download-abort-cancel":
+						start("do", func() error { _, err := cc.Do(mk(codes.GET, "/r", nil)); return err })
+					case "upload3", "upload-abort-cancel":
+						start("do", func() error { _, err := cc.Do(mk(codes.POST, "/up", bytes.Repeat([]byte("u"), 40))); return err })
+					case "dup-token":
+						base := len(w.St.Out)
+						start("do", func() error { _, err := cc.Do(mk(codes.GET, "/r", nil)); return err })
+						vrt.App("do-dup", func() {
+							vrt.WaitUntil("dup waits until first on wire", func() bool { return len(w.St.Out) > base || opDone })
+							if _, err := cc.Do(mk(codes.GET, "/r2", nil)); err == nil {
+								fs = append(fs, mcx.Finding{Sig: "tcp/duplicate-token-accepted", What: "second request with an outstanding token succeeded"})
+							}
+						})
+					case "observe-cancel", "observe-live", "observe-silent-cancel", "observe-404":
+						start("observe", func() error {
+							req := mk(codes.GET, "/obs", nil)
+							req.SetObserve(0)
+							o, err := cc.DoObserve(req, func(*pool.Message) {})
+							if err == nil {
+								obsCancel = func() error { return o.Cancel(context.Background()) }
+							}
+							return err
+						})
+					case "ping-ok", "ping-silent-cancel":
+						start("ping", func() error { return cc.Ping(ctx) })
+					case "oneway":
+						start("write", func() error { return cc.WriteMessage(mk(codes.POST, "/ow", []byte("x"))) })
+					case "incoming":
+						w.Inject(message.Message{Code: codes.GET, Token: tok, Options: message.Options{{ID: message.URIPath, Value: []byte("in")}}})
+						opDone = true
+					case "incoming-blockwise-abort":
+						w.Inject(message.Message{Code: codes.POST, Token: tok, Payload: bytes.Repeat([]byte("p"), 16),
+							Options: message.Options{{ID: message.URIPath, Value: []byte("in")}, u32opt(message.Block1, 0<<4|8|0)}})
+						opDone = true
+					}
+					blockBody := "0123456789abcdef0123456789abcdef01234567"
+					downloadStarted := false
+					for round := 0; round < 16; round++ {
+						vrt.Quiesce("env: settle")
+						acted := false
+						for _, m := range w.NewOuts() {
+							reply := func(code codes.Code, payload string, opts ...message.Option) {
+								w.Inject(message.Message{Code: code, Token: m.Token, Payload: []byte(payload), Options: opts})
+								acted = true
+							}
+							if m.Code == codes.Ping {
+								if kind == "ping-ok" {
+									reply(codes.Pong, "")
+								}
+								continue
+							}
+							if m.Code < codes.GET || m.Code > codes.DELETE {
+								continue
+							}
+							b1, e1 := m.Options.GetUint32(message.Block1)
+							b2, e2 := m.Options.GetUint32(message.Block2)
+							obsV, eo := m.Options.GetUint32(message.Observe)
+							switch {
+							case eo == nil && obsV == 1:
+								reply(codes.Content, "bye")
+							case kind == "do-ok" || kind == "dup-token":
+								reply(codes.Content, "ok")
+							case kind == "upload3" && e1 == nil:
+								if b1&8 != 0 {
+									reply(codes.Continue, "", u32opt(message.Block1, b1))
+								} else {
+									reply(codes.Changed, "", u32opt(message.Block1, b1))
+								}
+							case kind == "upload-abort-cancel" && e1 == nil:
+								if b1>>4 == 0 {
+									reply(codes.Continue, "", u32opt(message.Block1, b1))
+								}
+							case kind == "download3" || kind == "download-abort-cancel":
+								num := uint32(0)
+								if e2 == nil {
+									num = b2 >> 4
+								}
+								if kind == "download-abort-cancel" && downloadStarted {
+									break
+								}
+								downloadStarted = true
+								lo, hi := int(num)*16, int(num)*16+16
+								more := uint32(8)
+								if hi >= len(blockBody) {
+									hi, more = len(blockBody), 0
+								}
+								reply(codes.Content, blockBody[lo:hi], u32opt(message.Block2, num<<4|more))
+							case kind == "observe-cancel" || kind == "observe-live":
+								reply(codes.Content, "v1", u32opt(message.Observe, 7))
+							case kind == "observe-404":
+								reply(codes.NotFound, "")
+							}
+						}
+						if acted {
+							continue
+						}
+						if !opDone && strings.HasSuffix(kind, "-cancel") {
+							cancel()
+							continue
+						}
+						if opDone && kind == "observe-cancel" && obsCancel != nil {
+							f := obsCancel
+							obsCancel = nil
+							opDone = false
+							start("cancel-observation", f)
+							continue
+						}
+						if opDone {
+							break
+						}
+					}
+					if kind == "observe-live" && opErr == nil {
+						liveObs++
+					}
+					cancel()
+					vrt.Quiesce("env: exchange over")
+				}
+				check := func(phase string, skipAbandoned bool) {
+					sizes := cc.VerifSizes()
+					abandoned := false
+					for _, k := range hist {
+						if strings.Contains(k, "abort") || strings.Contains(k, "silent") {
+							abandoned = true
+						}
+					}
+					var left []string
+					for k, v := range sizes {
+						want := 0
+						if k == "observations" {
+							want = liveObs
+						}
+						if skipAbandoned && abandoned && strings.HasPrefix(k, "blockwise") {
+							continue
+						}
+						if v != want {
+							left = append(left, k)
+						}
+					}
+					sort.Strings(left)
+					if len(left) > 0 {
+						fs = append(fs, mcx.Finding{Sig: "tcp/" + phase + "/" + strings.Join(left, "+"), What: fmt.Sprintf("%s: after history [%s] the connection holds %v: %v", name, strings.Join(hist, " "), left, sizes)})
+					}
+				}
+				vrt.Quiesce("env: before expiry")
+				check("state-after-return", true)
+				vrt.Advance(300 * time.Second)
+				cc.CheckExpirations(vrt.Now())
+				vrt.Quiesce("env: tick 1")
+				vrt.Advance(5 * time.Second)
+				cc.CheckExpirations(vrt.Now())
+				vrt.Quiesce("env: tick 2")
+				check("state-outlives-exchanges", false)
+			})
+			return func() (string, []mcx.Finding) { return "tcp:" + strings.Join(hist, " "), fs }
+		},
+	}
+}
+
+// addMore adds the tcp-conn histories.
+func addMore(r *ev.Run, scs *[]*mcx.Scenario) {
+	*scs = append(*scs, tcpScenario(ev.Pick(r, 3, 4), tcpKinds))
+}
